@@ -126,6 +126,9 @@ RET_FORMS = [
          lambda l: [("struct", "a", l[0]), ("struct", "b", l[1])], lambda l: [(l[1], l[0])]),
     Form("Result<S2b<'r,'s>, u8>", 2, lambda l: "Result<S2b<%s, %s>, u8>" % (_lt(l[0]), _lt(l[1])),
          lambda l: [("struct", "a", l[0]), ("struct", "b", l[1])], lambda l: [(l[1], l[0])]),
+    # a nullable return of a type whose DEFINITION relates two of its lifetimes
+    Form("Option<S2b<'r,'s>>", 2, lambda l: "Option<S2b<%s, %s>>" % (_lt(l[0]), _lt(l[1])),
+         lambda l: [("struct", "a", l[0]), ("struct", "b", l[1])], lambda l: [(l[1], l[0])]),
     Form("Result<&'r Op, ()>", 1, lambda l: "Result<&%s Op, ()>" % _lt(l[0]), lambda l: [("opaque", None, l[0])]),
     # unit success: the only lifetime of the return type sits in the error arm
     Form("Result<(), &'r Op>", 1, lambda l: "Result<(), &%s Op>" % _lt(l[0]), lambda l: [("opaque", None, l[0])]),
